@@ -9,7 +9,7 @@
 From Coq Require Import QArith Reals List.
 From Coquelicot Require Import Coquelicot.
 Import ListNotations.
-From TT Require Import Num NumR Tree M_transform M_height P_transform P_height P_height_jac P_height_inv P_det_def P_tridet P_transform_det P_height_det G_transforms P_transform_gen.
+From TT Require Import Num NumR Tree M_transform M_height P_transform P_height P_height_jac P_height_inv P_det_def P_tridet P_transform_det P_height_det P_det_perm G_transforms P_transform_gen.
 Open Scope R_scope.
 
 (* ---- inverse after forward returns the input ---- *)
@@ -165,6 +165,35 @@ Theorem C07_transform_source_is_model :
 Proof. exact transforms_source_is_model. Qed.
 Print Assumptions C07_transform_source_is_model.
 Example C07_ratio_det_example := ratio_det_example.
+
+(* The implementation (autograd) lays the Jacobian out with rows and columns ordered by NODE INDEX, the theorems above
+   by pre-order.  The determinant does not see the difference: for ANY square real matrix and ANY injective
+   re-indexing of rows and columns by the same map ... *)
+Theorem C07_det_simultaneous_permutation : forall (n : nat) (m : list (list R)) (s : nat -> nat),
+  (forall i, (i < n)%nat -> (s i < n)%nat) ->
+  (forall i j, (i < n)%nat -> (j < n)%nat -> s i = s j -> i = j) ->
+  ldet NumR n (tabulate n (fun i j => entryR m (s i) (s j))) = ldet NumR n m.
+Proof. exact ldet_simultaneous_permutation. Qed.
+Print Assumptions C07_det_simultaneous_permutation.
+(* ... hence the report of the ratio transform is ln |det| of the Jacobian in node-index order too (row r / column c =
+   height of node n+r / parameter of node n+c), with the numbering setup_indexes produces ... *)
+Theorem C07_ratio_report_is_logabsdet_node_order : forall times tr x i l r,
+  index_tree tr = INode i l r -> length x = (leaves tr - 1)%nat ->
+  bound NumR times (INode i l r) < x_of NumR (leaves tr) x i ->
+  (forall j, In j (ipre l ++ ipre r) -> 0 < x_of NumR (leaves tr) x j) ->
+  ratio_logdet NumR times None (INode i l r) (ratio_fwd NumR (leaves tr) times x None (INode i l r))
+  = ln (Rabs (ldet NumR (length x) (ratio_jacobian_node_order (leaves tr) times x (INode i l r)))).
+Proof. exact ratio_logdet_is_logabsdet_node_order_indexed. Qed.
+Print Assumptions C07_ratio_report_is_logabsdet_node_order.
+(* ... where every entry of that matrix IS the partial derivative of the height of node n+r with respect to x[c] *)
+Theorem C07_node_order_entries_are_partial_derivatives : forall n times x t r c,
+  NoDup (ipre t) -> (forall k, In k (ipre t) -> (n <= k < n + length x)%nat) ->
+  length (ipre t) = length x -> (r < length x)%nat -> (c < length x)%nat ->
+  entryR (ratio_jacobian_node_order n times x t) r c
+  = Derive (fun s => node_height (n + r) (ratio_fwd NumR n times (upd x c s) None t)) (nth c x 0).
+Proof. exact ratio_jacobian_node_order_entry. Qed.
+Example C07_ratio_node_order_example := ratio_node_order_example.
+
 
 (* non-vacuity *)
 Example C07_example : cumsum_inv NumR (cumsum_fwd NumR [1; 2; 3]) = [1; 2; 3].
